@@ -205,6 +205,10 @@ static int hashmap_put(m_map_t *m, const char *key, void *value) {
     }
     
     if (entry->key) {
+        if (m->flags & M_MAP_KEY_DUP) {
+            /* The entry keeps its own copy of the key: release the one just duplicated */
+            memhook._free((void *)key);
+        }
         if (m->flags & M_MAP_VAL_ALLOW_UPDATE) {
             if (m->dtor && entry->data != value) {
                 /* Destroy old value if needed */
